@@ -224,7 +224,7 @@
 
 
     // ---- the property's observable, BOUNDED and native: static report versus the keys a render actually asks for
-//# ob name=undeclared_native role=native_bounded fn=compiler::meta::find_undeclared+vm::context::Context::load kind=bounded bound="60 single-file templates covering every expression and statement constructor, read-before-write forms (set x = x, with y = y, set-block reading its target, for x in x, macro defaults), scoping forms (assignments inside for / with / if / block / macro followed by a read) x 3 contexts (all keys missing, all present as maps, all present as lists)" stmt="every top-level context key that a render of the template actually looks up is contained in undeclared_variables() (or is a global of the environment), whatever control flow the render takes"
+//# ob name=undeclared_native role=native_bounded fn=compiler::meta::find_undeclared+vm::context::Context::load kind=bounded bound="a generated family of about 100 templates (31 binding constructs - set, tuple set, with incl. later bindings, set-block and its filter, for target / filter / else, the loop variable, macro and call-block parameters and defaults incl. defaults naming other parameters, caller, super, if / autoescape / filter-block expressions, namespace attribute assignment - each with one read of the bound name placed before the construct, in its own value / iterable / default / filter expression, in its body or after it) and 60 single-file templates covering every expression and statement constructor, read-before-write forms (set x = x, with y = y, set-block reading its target, for x in x, macro defaults), scoping forms (assignments inside for / with / if / block / macro followed by a read) x 3 contexts (all keys missing, all present as maps, all present as lists)" stmt="every top-level context key that a render of the template actually looks up is contained in undeclared_variables() (or is a global of the environment), whatever control flow the render takes"
     fn undeclared_native() {
         use crate::value::{Object, Value, Enumerator};
         use std::sync::{Arc, Mutex};
@@ -259,8 +259,51 @@
             "{% do a(b) %}", "{{ a }}{% set a = 1 %}{{ a }}", "{% for i in items %}{% set acc = i %}{% endfor %}{{ acc }}", "{% with %}{% set inw = 1 %}{% endwith %}{{ inw }}",
             "{{ namespace(x=a).x }}", "{% set ns = namespace(v=0) %}{% for i in items %}{% set ns.v = i %}{% endfor %}{{ ns.v }}", "{{ super }}", "{{ caller }}", "{{ x if y }}",
         ];
+        // binder x read-position family: every construct that binds a name, with one read of that name placed before the
+        // construct, in its own value / iterable / default / filter expression, inside its body, or after it
+        let binders: &[(&str, &str)] = &[
+            ("n", "PRE{% set n = RHS %}POST"), ("n", "PRE{% set (n, o9) = [RHS, 1] %}POST"), ("n", "PRE{% with n = RHS %}IN{% endwith %}POST"),
+            ("n", "PRE{% with a9 = 1, n = RHS %}IN{% endwith %}POST"), ("n", "PRE{% with n = 1, b9 = RHS %}IN{% endwith %}POST"),
+            ("n", "PRE{% set n %}IN{% endset %}POST"), ("n", "PRE{% set n | default(RHS) %}IN{% endset %}POST"),
+            ("n", "PRE{% for n in RHS %}IN{% endfor %}POST"), ("n", "PRE{% for n in [1] if RHS %}IN{% endfor %}POST"), ("n", "PRE{% for n in [] %}{% else %}IN{% endfor %}POST"),
+            ("n", "PRE{% for (n, o9) in [[RHS, 1]] %}IN{% endfor %}POST"),
+            ("loop", "PRE{% for z9 in RHS %}IN{% endfor %}POST"), ("loop", "PRE{% for z9 in [1] if RHS %}IN{% endfor %}POST"), ("loop", "PRE{% for z9 in [] %}{% else %}IN{% endfor %}POST"),
+            ("loop", "{% for y9 in [1] %}PRE{% for z9 in RHS %}IN{% endfor %}POST{% endfor %}"),
+            ("n", "PRE{% macro m9(n=RHS) %}IN{% endmacro %}{{ m9() }}POST"), ("n", "PRE{% macro m9(n, q9=RHS) %}{{ q9 }}IN{% endmacro %}{{ m9(1) }}POST"),
+            ("n", "PRE{% macro m9(q9=RHS, n=2) %}{{ q9 }}IN{% endmacro %}{{ m9() }}POST"),
+            ("n", "{% macro w9() %}{{ caller(1) }}{% endmacro %}PRE{% call(n) w9() %}IN{% endcall %}POST"),
+            ("n", "{% macro w9() %}{{ caller(1) }}{% endmacro %}PRE{% call(a9, n=RHS) w9() %}{{ n }}IN{% endcall %}POST"),
+            ("n", "{% macro w9() %}{{ caller() }}{% endmacro %}PRE{% call(n=1, q9=RHS) w9() %}{{ q9 }}IN{% endcall %}POST"),
+            ("caller", "PRE{% macro w9(q9=RHS) %}IN{% endmacro %}{{ w9() }}{{ w9(q9=1) }}POST"), ("caller", "{% macro o9() %}{% macro w9() %}IN{% endmacro %}{{ w9() }}{% endmacro %}{{ o9() }}"),
+            ("caller", "{% macro w9() %}{{ caller() }}{% endmacro %}PRE{% call w9() %}IN{% endcall %}POST"),
+            ("super", "PRE{% block b9 %}IN{% endblock %}POST"), ("self", "PRE{% block b9 %}{{ self.b9 }}{% endblock %}POST"),
+            ("n", "PRE{% if RHS %}{% set n = 1 %}{% endif %}POST"), ("n", "PRE{% autoescape RHS %}{% set n = 1 %}IN{% endautoescape %}POST"),
+            ("n", "PRE{% filter default(RHS) %}{% set n = 1 %}IN{% endfilter %}POST"), ("n", "PRE{% set n9 = namespace() %}{% set n9.attr = RHS %}{% set n = 1 %}POST"),
+            ("n", "PRE{% set n.attr = RHS %}POST"),
+        ];
+        let mut generated: Vec<String> = Vec::new();
+        for (name, shape) in binders {
+            let read = format!("{{{{ {name} }}}}");
+            for pos in ["PRE", "RHS", "IN", "POST"] {
+                if !shape.contains(pos) { continue; }
+                let mut t = shape.to_string();
+                for q in ["PRE", "IN", "POST"] { t = t.replace(q, if q == pos { read.as_str() } else { "" }); }
+                t = t.replace("RHS", if pos == "RHS" { name } else { "1" });
+                // listed known finding: a bare `self` (undeclared_self_native)
+                if *name == "self" && pos != "RHS" { continue; }
+                // same listed finding: a bare `super` (not a call) inside a block
+                if *name == "super" && pos == "IN" { continue; }
+                generated.push(t);
+            }
+        }
+        let mut all: Vec<String> = templates.iter().map(|s| s.to_string()).collect();
+        all.extend(generated);
+        let templates = all;
         let mut env = crate::Environment::new();
-        env.set_debug(true);
+        // debug info is off: when an error is built with debug info the engine snapshots every name the failing block
+        // references (including names the template itself binds, such as `loop`) by looking them up in the context;
+        // those lookups serve the error report, not the evaluation, and are not reads in the sense of the property
+        env.set_debug(false);
         let globals: Vec<String> = env.globals().map(|(k, _)| k.to_string()).collect();
         for (i, src) in templates.iter().enumerate() {
             let name = format!("t{i}");
@@ -277,18 +320,41 @@
         }
     }
 
-    // listed known finding: the reserved name `self`
-//# ob name=undeclared_self_native role=native_bounded fn=compiler::meta::track_walk(Template) kind=bounded bound="1 template: {{ self }}" stmt="a render that looks up the key `self` in the context finds it in undeclared_variables()"
-    fn undeclared_self_native() {
+    /// the context keys a render of `src` asks for (recording context, every key missing)
+    fn requested_keys(src: &str) -> Vec<String> {
+        use crate::value::{Object, Value, Enumerator};
+        use std::sync::{Arc, Mutex};
+        #[derive(Debug)]
+        struct Rec(Mutex<Vec<String>>);
+        impl Object for Rec {
+            fn get_value(self: &Arc<Self>, key: &Value) -> Option<Value> { self.0.lock().unwrap().push(key.as_str()?.to_string()); None }
+            fn enumerate(self: &Arc<Self>) -> Enumerator { Enumerator::NonEnumerable }
+        }
+        let mut env = crate::Environment::new();
+        env.set_debug(false);
+        let rec = Arc::new(Rec(Mutex::new(Vec::new())));
+        let _ = env.template_from_str(src).unwrap().render(Value::from_dyn_object(rec.clone()));
+        let v = rec.0.lock().unwrap().clone();
+        v
+    }
+    fn assert_requested_are_reported(src: &str) {
         let env = crate::Environment::new();
-        let t = env.template_from_str("{{ self }}").unwrap();
-        assert!(t.undeclared_variables(false).contains("self"), "`self` is looked up in the context by the render but is not reported");
+        let reported = env.template_from_str(src).unwrap().undeclared_variables(false);
+        let globals: Vec<String> = env.globals().map(|(k, _)| k.to_string()).collect();
+        for key in requested_keys(src) {
+            assert!(reported.contains(&key) || globals.contains(&key), "{src:?}: the render looked up {key:?} but undeclared_variables() is {reported:?}");
+        }
     }
 
-    // listed known finding: `caller` is assumed to exist inside every macro
-//# ob name=undeclared_caller_native role=native_bounded fn=compiler::meta::tracker_visit_macro kind=bounded bound="1 template: a macro that uses caller() invoked without a call block" stmt="a render that looks up the key `caller` in the context finds it in undeclared_variables()"
-    fn undeclared_caller_native() {
-        let env = crate::Environment::new();
-        let t = env.template_from_str("{% macro m() %}{{ caller is defined }}{% endmacro %}{{ m() }}").unwrap();
-        assert!(t.undeclared_variables(false).contains("caller"), "`caller` is looked up in the context when the macro is not invoked through a call block, but it is not reported");
+    // listed known finding: the reserved names `self` and `super` used as plain variables
+//# ob name=undeclared_self_native role=native_bounded fn=compiler::meta::track_walk(Template,Block) kind=bounded bound="2 templates: {{ self }} and {% block b %}{{ super }}{% endblock %}" stmt="every key the render looks up in the context is reported, also for `self` / `super` used as plain variables"
+    fn undeclared_self_native() {
+        assert_requested_are_reported("{{ self }}");
+        assert_requested_are_reported("{% block b %}{{ super }}{% endblock %}");
+    }
+
+    // listed known finding: a recursive macro's own name
+//# ob name=undeclared_recursive_macro_native role=native_bounded fn=compiler::meta::track_walk(Macro) kind=bounded bound="1 template: a macro that calls itself" stmt="every key the render looks up in the context is reported, also the own name of a recursive macro (looked up when its closure is built)"
+    fn undeclared_recursive_macro_native() {
+        assert_requested_are_reported("{% macro fact(n) %}{{ fact(n - 1) if n > 0 }}{% endmacro %}{{ fact(2) }}");
     }
